@@ -225,7 +225,9 @@ def apply(eng, rule: Rule, fr, topology, enter, leave, root):
             else:
                 eng.assume(z3.And(sel(ENT, par), z3.Not(sel(LEFT, par))))
                 pre = _mk_value(eng, rule.enter_kind, "pre")
-                eng.assume(_zb(rule.Qe(eng, vars_now(), par, pre, ctx)))
+                qe = rule.Qe(eng, vars_now(), par, pre, ctx)
+                for part in ([f for _, f in qe] if isinstance(qe, (list, tuple)) else [qe]):
+                    eng.assume(_zb(part))
             ret = eng.call(enter, [xs, pre], {})
             eng.ghost["traverse-last-call"] = dict(x=xz, args=pre, ret=ret, ENT=ENT, LEFT=LEFT)
             if rule.ghost_enter is not None:
@@ -284,7 +286,9 @@ def apply(eng, rule: Rule, fr, topology, enter, leave, root):
     if leave is None:
         return None
     res = _mk_value(eng, rule.leave_kind, "trav")
-    eng.assume(_zb(rule.Ql(eng, vars_now(), rz, res, ctx)))
+    ql = rule.Ql(eng, vars_now(), rz, res, ctx)
+    for part in ([f for _, f in ql] if isinstance(ql, (list, tuple)) else [ql]):  # one hypothesis per conjunct
+        eng.assume(_zb(part))
     return res
 
 
